@@ -24,8 +24,9 @@ def strategy(tier, unit):
     return st.fixed_dictionaries({
         "o": st.integers(0, 7), "nx": st.one_of(st.integers(1, 40), st.integers(1, 3000)), "ny": st.one_of(st.integers(1, 40), st.integers(1, 3000)),
         "fx": S.fl(0, 1), "fy": S.fl(0, 1), "ix": S.fl(0, 1), "iy": S.fl(0, 1),
-        "y0": S.fl(-3000, 3000), "z0": S.fl(-3000, 3000), "eta": st.one_of(S.fl(0, 360), st.sampled_from([0.0, 90.0, 180.0, 270.0, 360.0])),
-        "rad": S.logfl(1.000001, 1e4)})   # radius >= 1 with a margin for the rounding of sqrt(dy^2+dz^2)
+        "y0": S.fl(-3000, 3000), "z0": S.fl(-3000, 3000), "eta": st.one_of(S.fl(0, 360), st.sampled_from([0.0, 90.0, 180.0, 270.0, 360.0]),
+                                                            st.tuples(st.sampled_from([45.0, 90.0, 135.0, 180.0, 225.0, 270.0, 315.0]), S.logfl(1e-10, 1e-2), st.sampled_from([-1.0, 1.0])).map(lambda t: t[0] + t[1] * t[2])),
+        "rad": st.one_of(S.logfl(1.000001, 1e4), S.fl(1.000001, 1.5))})   # radius >= 1 with a margin for the rounding of sqrt(dy^2+dz^2)
 
 
 def _check_images(ctx, D, o, nx, ny, tag):
